@@ -488,7 +488,10 @@ class SpecMixin(object):
       self.spec_mode = saved_mode
     # shape facts about the bound element are quantified axioms
     for a in shape_facts:
-      st.axiom(z3.ForAll([i], z3.Implies(z3.And(i >= 0, i < n), a)))
+      if str(i) in a.sexpr():
+        st.axiom(z3.ForAll([i], z3.Implies(z3.And(i >= 0, i < n), a)))
+      elif a.get_id() not in st.ax:
+        st.axiom(a)
     if universal:
       return z3.ForAll([i], z3.Implies(z3.And(guard, *conds), body))
     return z3.Exists([i], z3.And(guard, *(conds + [body])))
